@@ -363,7 +363,7 @@ func main() {
 			byClass[f[0]] = append(byClass[f[0]], f[1])
 		}
 		for cl, ks := range byClass {
-			name := "/verif/known/KF-C16-" + strings.TrimPrefix(cl, "smartclip:") + ".keys"
+			name := ev.Root + "/known/KF-C16-" + strings.TrimPrefix(cl, "smartclip:") + ".keys"
 			os.WriteFile(name, []byte(strings.Join(dedupe(ks), "\n")+"\n"), 0o644)
 			fmt.Println("wrote", name, len(dedupe(ks)))
 		}
